@@ -585,7 +585,7 @@ def run(ctx):
         # chains of up to three Steps per command (the position carries over between Steps)
         f = R.mc("steps3", allc, 1, 3, CLASSES5 + ["2b"], [0], timeout=2400)
         R.replay("steps3", f)
-        f = R.mc("sim", allc, 8, 2, CLASSES5 + ["2b"], [0, 41, 602], simulate=64, simdepth=40, workers=16, timeout=2400)
+        f = R.mc("sim", allc, 8, 2, CLASSES5 + ["2b"], [0, 41, 602], simulate=32, simdepth=40, workers=16, timeout=2400)
         R.replay("sim", f)
     R.selftest_replay(first)
 
